@@ -44,7 +44,8 @@ PROBES = ["enospc_first_write", "enospc_middle_write", "enospc_last_write", "sho
           "padded_2d_vector", "three_component_vector", "cell_vector_components", "domain_3d", "several_writers_one_dir",
           "subdirectory", "strided_input", "int_input", "float32_input", "scale_factor", "one_element_array",
           "zero_d_array", "table_vector", "table_matrix", "csv_separator", "custom_separator", "python_int_value",
-          "fault_in_first_call_of_writer", "call_after_failed_call_succeeds", "header_column_count_differs_from_rows"]
+          "fault_in_first_call_of_writer", "call_after_failed_call_succeeds", "header_column_count_differs_from_rows",
+          "stale_log_file_present", "columns_not_in_logical_order"]
 # observation-only counters that are reported when non-zero but are not workload targets: fault_call_returned_normally
 # (an injected error was swallowed -- zero on a correct tree), header_is_raw_length / header_is_encoded_length
 FAULT_KINDS = ["enospc", "short_write", "eio_open"]
@@ -160,7 +161,8 @@ def gen(rng, idx, tier):
                 kind = str(rng.choice(TAB_KINDS))
                 inputs.append(dict(tag=tags[i], kind=kind, len=int(rng.integers(2, 7)), cols=int(rng.integers(2, 4))))
             case["writers"].append(dict(kind="tab", name=f"w{w}", dir=sub, ext=str(rng.choice([".txt", ".txt", ".csv", ".dat"])),
-                                        fmt=str(rng.choice(FMTS)), sep=str(rng.choice(SEPS)), inputs=inputs))
+                                        fmt=str(rng.choice(FMTS)), sep=str(rng.choice(SEPS)), inputs=inputs,
+                                        stale=bool(rng.random() < 0.25)))
     nops = int(rng.integers(1, 13))
     for _ in range(nops):
         case["ops"].append(dict(w=int(rng.integers(0, 64)), seed=int(rng.integers(1 << 30))))
@@ -602,6 +604,10 @@ def execute(case, res, fault=None, sigcache=None):
                     continue
                 sigs = [signal(wi, inp["tag"]) for inp in inputs]
                 saveto = os.path.join(base, w["name"] + w["ext"])
+                if w.get("stale"):
+                    # a log of an earlier run is still there (script re-run with the same path): it must not survive
+                    FS.files[os.path.abspath(saveto)] = b"Iteration\tzz\n0\t1.0\n1\t2.0\n"
+                    probe("stale_log_file_present")
                 mod = pym.ScalarToFile(sigs, saveto=saveto, fmt=w["fmt"], separator=w["sep"])
                 writers.append(dict(spec=w, kind="tab", mod=mod, sigs=sigs, inputs=inputs, saveto=saveto, its={0}, rows=[],
                                     tainted=False, calls=0, ok_calls=0, failed_before=False))
